@@ -5,7 +5,7 @@ from .. import engine as E
 from .. import catalogue as K
 from .. import speccheck as S
 
-THEOREMS = []
+THEOREMS = ["c06_array_arity", "c06_tuple2_arity", "c06_tuple3_arity", "c06_option_null", "c06_option_some", "c06_box", "c06_vec_elements", "c06_vec_length", "c06_map_bad_key_fails"]
 
 
 def run(ctx, H):
